@@ -9,6 +9,7 @@ import Marwood.Proofs.C03
 import Marwood.Lemmas.MachineGarbage
 import Marwood.Lemmas.PolicyAllocBound
 import Marwood.Lemmas.PolicySessionOk
+import Marwood.Lemmas.PrepareSession
 /-!
 # C12 — memory is bounded by live data: garbage of every kind is reclaimed
 
@@ -964,5 +965,74 @@ example : GcOk false (sHalt 0) ∧ liveCount (sHalt 0) ≤ 4 ∧
   exact ⟨ok, liveCount_le_size _, (cgc_is_gcPoint ok).1⟩
 
 end session
+
+/-! ### `JobsOk` discharged: histories with `prepare_eval` as a step of its own (Lemmas/Prepare*.lean)
+
+`history_capacity_bounded_machine` asks `VmOkP` of every state in which a job starts (`JobsOk`), because
+`runHistory` takes each entry lambda as given. `HistInstalls` (Lemmas/PrepareHistory.lean) is the history relation
+in which the compiler and loader inside `prepare_eval` are steps: `Installs` (a form the compiler accepted:
+allocator steps installing loadings of the compiler model's code objects, their data, symbols, global slots — the
+allocation the finding `C12-undefined-global-binding` is about) or `InstallsGarbage` followed by the collection of
+the `Err` arm (a rejected form). `prepare_vmOkP_idle` re-establishes the bundled invariant, the loader's allocations
+(at most one per step) are part of the block in which the evaluation starts, a rejected form is a block of its
+own. Hypotheses left: the laws of the unmodelled builtins, `VmOkP` and `CodePlain` of the INITIAL state (empty
+stack), the physical size bounds `RecSized`. `E` now bounds, per block, the cells allocated by the unmodelled
+builtins AND by the loader. -/
+section installs
+open Marwood.Vm Marwood.Vm.Concrete Marwood.Lemmas.Sim Marwood.Lemmas.Good Marwood.Lemmas.PolicyAlloc
+open Marwood.Lemmas.MachineGarbage Marwood.Lemmas.PolicySession
+open Marwood.Lemmas.PolicySessionGc Marwood.Lemmas.PolicySessionMain Marwood.Lemmas.PolicySessionOk
+
+/-- **C12, first sentence, for every history of `eval` calls of the concrete machine, `prepare_eval` included.** -/
+theorem history_capacity_bounded_installs {ext : ExtOps} (ecl : ExtCodeLawsV ext) (force : Bool) (el : ExtLaws ext)
+    (eg : ExtGood ext) (ep : ExtProc ext) (ecp : ExtCodePlain ext) (ea : ExtAllocOnly ext) {s0 sf : St CHeap}
+    {recs : List EvRec} (hist : HistInstalls ext force s0 recs sf)
+    (h0 : VmOkP ext ecl s0) (hsp : s0.stack.sp = 0) (hcap : 0 < s0.stack.cells.length) (cp0 : CodePlain s0.heap)
+    (sz : ∀ rc ∈ recs, RecSized ext force rc) :
+    ∃ cps, Sess ext force s0 cps sf ∧ (∀ cp ∈ cps, cp.1 ≤ 8192) ∧
+      ∀ E L : Nat, (∀ cp ∈ cps, cp.2.1 ≤ E ∧ liveCount cp.2.2 ≤ L) →
+        (used s0.heap ≤ L ∨ 4 * used s0.heap < 3 * s0.heap.cells.size) →
+        sf.heap.cells.size ≤ max s0.heap.cells.size (6 * (L + (8192 * 3 + E)) + s0.heap.chunk) := by
+  have i0 : IdleOk s0 := h0.idleOk hsp hcap
+  obtain ⟨cps, hs, hn, hok⟩ := histInstalls_session ecl force el eg ep ecp hist i0 cp0 sz
+  refine ⟨cps, hs, hn, ?_⟩
+  intro E L hEL hu
+  exact (session_capacity_bounded_machine ea hs (Seg.refl ext _) (HInv.of_wf i0.good.hg.wf) hok hn
+    (fun c h => (hEL c h).1) (fun c h => (hEL c h).2) (by omega) (Nat.zero_le _) hu).2
+
+/-- every job of such a history starts in a state satisfying the bundled invariant (what `JobsOk` asked), and the
+    machine is idle at the end -/
+theorem history_jobs_ok_installs {ext : ExtOps} (ecl : ExtCodeLawsV ext) (force : Bool) (el : ExtLaws ext)
+    (eg : ExtGood ext) (ep : ExtProc ext) {s0 sf : St CHeap} {recs : List EvRec}
+    (hist : HistInstalls ext force s0 recs sf)
+    (h0 : VmOkP ext ecl s0) (hsp : s0.stack.sp = 0) (hcap : 0 < s0.stack.cells.length)
+    (sz : ∀ rc ∈ recs, RecSized ext force rc) :
+    (∀ p r, EvRec.ran p r ∈ recs → VmOkP ext ecl p) ∧ IdleOk sf := by
+  obtain ⟨a, _, c⟩ := histInstalls_ok (ecl := ecl) force el eg ep hist (h0.idleOk hsp hcap) sz
+  exact ⟨fun p r h => (a p r h).1, c⟩
+
+open Marwood.Lemmas.Good.Demo Marwood.Proofs.C13 in
+/-- non-vacuity: on the demo machine, a history of two rejected forms that allocated nothing — every hypothesis holds -/
+example : ∃ cps, Sess failingExt false (sHalt 0) cps (sHalt 0) ∧ (∀ cp ∈ cps, cp.1 ≤ 8192) ∧
+    ∀ E L : Nat, (∀ cp ∈ cps, cp.2.1 ≤ E ∧ liveCount cp.2.2 ≤ L) →
+      (used (sHalt 0).heap ≤ L ∨ 4 * used (sHalt 0).heap < 3 * (sHalt 0).heap.cells.size) →
+      (sHalt 0).heap.cells.size ≤ max (sHalt 0).heap.cells.size (6 * (L + (8192 * 3 + E)) + (sHalt 0).heap.chunk) := by
+  have hg : cgc false (sHalt 0) = sHalt 0 := hHalt_cgc _ rfl
+  have h1 : HistInstalls failingExt false (sHalt 0) [.rejected (sHalt 0), .rejected (sHalt 0)] (sHalt 0) := by
+    refine .rejected ⟨rfl, .refl _⟩ ?_
+    rw [hg]
+    refine .rejected ⟨rfl, .refl _⟩ ?_
+    rw [hg]
+    exact .nil _
+  refine history_capacity_bounded_installs failingExt_codeLawsV false failingExt_laws failingExt_good failingExt_proc
+    failingExt_codePlain failingExt_allocOnly h1 (sHalt_vmOkP _ _) rfl (by decide) (sHalt_codePlain 0) ?_
+  intro rc hrc
+  have : rc = .rejected (sHalt 0) := by
+    simp only [List.mem_cons, List.not_mem_nil, or_false] at hrc
+    rcases hrc with h | h <;> exact h
+  subst this
+  exact ⟨sHalt_small 0, by rw [hg]; exact sHalt_small 0⟩
+
+end installs
 
 end Marwood.Proofs.C12
